@@ -35,6 +35,69 @@ impl Tr for u64 {
 
 extern "C" {
     fn _exit(code: i32) -> !;
+    fn write(fd: i32, buf: *const u8, n: usize) -> isize;
+}
+
+// ---- interference: "another thread's clone" injected before the k-th atomic step of the clone under test
+mod inj {
+    use std::cell::RefCell;
+    use std::sync::atomic::{AtomicBool, AtomicUsize, Ordering};
+    use triomphe::verif_hook::{Hooks, Rmw};
+    pub static AT: AtomicUsize = AtomicUsize::new(0);
+    pub static CALLS: AtomicUsize = AtomicUsize::new(0);
+    pub static ARMED: AtomicBool = AtomicBool::new(false);
+    static BUSY: AtomicBool = AtomicBool::new(false);
+    thread_local! {
+        pub static NESTED: RefCell<Option<Box<dyn Fn()>>> = const { RefCell::new(None) };
+    }
+    fn point() {
+        if !ARMED.load(Ordering::Relaxed) || BUSY.load(Ordering::Relaxed) {
+            return;
+        }
+        let n = CALLS.fetch_add(1, Ordering::Relaxed) + 1;
+        if n == AT.load(Ordering::Relaxed) {
+            BUSY.store(true, Ordering::Relaxed);
+            NESTED.with(|f| {
+                if let Some(f) = f.borrow().as_ref() {
+                    f()
+                }
+            });
+            BUSY.store(false, Ordering::Relaxed);
+        }
+    }
+    fn l(a: &AtomicUsize, o: Ordering) -> usize {
+        point();
+        a.load(o)
+    }
+    fn st(a: &AtomicUsize, v: usize, o: Ordering) {
+        point();
+        a.store(v, o)
+    }
+    fn r(k: Rmw, a: &AtomicUsize, v: usize, o: Ordering) -> usize {
+        point();
+        let old = vrt::rmwlog::do_rmw(k, a, v, o);
+        if k == Rmw::Add && old > isize::MAX as usize {
+            // reported at once: the process is expected to abort right after
+            let m = b"PAST an increment found the count already past isize::MAX\n";
+            unsafe { super::write(1, m.as_ptr(), m.len()) };
+        }
+        old
+    }
+    fn c(a: &AtomicUsize, cur: usize, new: usize, s: Ordering, f: Ordering, w: bool) -> Result<usize, usize> {
+        point();
+        let res = if w { a.compare_exchange_weak(cur, new, s, f) } else { a.compare_exchange(cur, new, s, f) };
+        if let Ok(old) = res {
+            if new > old && old > isize::MAX as usize {
+                let m = b"PAST an increment found the count already past isize::MAX\n";
+                unsafe { super::write(1, m.as_ptr(), m.len()) };
+            }
+        }
+        res
+    }
+    fn f(o: Ordering) {
+        std::sync::atomic::fence(o)
+    }
+    pub static TABLE: Hooks = Hooks { load: l, store: st, rmw: r, cas: c, fence: f };
 }
 
 /// learn where the count word of an allocation lives from the hook log of one count read
@@ -82,6 +145,29 @@ pub fn child(args: &[String]) {
     set_count(addr, start);
     println!("READY start={}", get_count(addr));
     std::io::stdout().flush().unwrap();
+    let inject: usize = crate::arg(args, "--inject").map(|s| s.parse().unwrap()).unwrap_or(0);
+    if inject > 0 {
+        // the interfering clone goes through the same kind of handle, on the same allocation
+        let (pa, pt, po, pu1, pu2) = (&a as *const Arc<u64> as usize, &t as *const ThinArc<u8, u16> as usize, &o as *const OffsetArc<u64> as usize, &u1 as *const ArcUnion<u64, u8> as usize, &u2 as *const ArcUnion<u8, u64> as usize);
+        let e = entry.clone();
+        let nested: Box<dyn Fn()> = Box::new(move || unsafe {
+            if e.starts_with("ThinArc") {
+                std::mem::forget((*(pt as *const ThinArc<u8, u16>)).clone())
+            } else if e.starts_with("OffsetArc") {
+                std::mem::forget((*(po as *const OffsetArc<u64>)).clone())
+            } else if e.starts_with("ArcUnion(first)") {
+                std::mem::forget((*(pu1 as *const ArcUnion<u64, u8>)).clone())
+            } else if e.starts_with("ArcUnion(second)") {
+                std::mem::forget((*(pu2 as *const ArcUnion<u8, u64>)).clone())
+            } else {
+                std::mem::forget((*(pa as *const Arc<u64>)).clone())
+            }
+        });
+        inj::NESTED.with(|n| *n.borrow_mut() = Some(nested));
+        inj::AT.store(inject, Ordering::Relaxed);
+        triomphe::verif_hook::set_hooks(Some(&inj::TABLE));
+        inj::ARMED.store(true, Ordering::Relaxed);
+    }
     let r = std::panic::catch_unwind(std::panic::AssertUnwindSafe(|| match entry.as_str() {
         "Arc<T>::clone" => std::mem::forget(a.clone()),
         "Arc<[T]>::clone" => std::mem::forget(s.clone()),
@@ -101,6 +187,7 @@ pub fn child(args: &[String]) {
         "Arc::with_raw_offset_arc(clone_arc)" => a.with_raw_offset_arc(|x| std::mem::forget(x.clone_arc())),
         _ => unreachable!(),
     }));
+    inj::ARMED.store(false, Ordering::Relaxed);
     match r {
         Ok(()) => println!("SENTINEL returned count={}", get_count(addr)),
         Err(_) => println!("CAUGHT a panic was caught by catch_unwind; count={}", get_count(addr)),
@@ -178,5 +265,57 @@ pub fn run(_tier: &str) -> Vec<Grid> {
             }
         }
     }
-    vec![g]
+    // ---- interference grid: another clone lands before the k-th atomic step of the clone under test
+    let mut gi = Grid::new(if cfg == "std" { "c16.interference.std" } else { "c16.interference.no_std" }, "starting count in {isize::MAX-1, isize::MAX} x clone entry point x position k in 1..=3 at which a second clone of the same allocation is interleaved (before the k-th atomic step): whenever any increment finds the count already past isize::MAX the process must abort; otherwise both clones return and add one each");
+    let entries: Vec<&str> = ENTRIES.iter().copied().filter(|e| !matches!(*e, "Arc<[T]>::clone" | "Arc<str>::clone" | "Arc<dyn>::clone" | "Arc<HeaderSlice>::clone")).collect();
+    let mut jobs2 = vec![];
+    for e in &entries {
+        for s in [im - 1, im] {
+            for k in 1..=3usize {
+                jobs2.push((*e, s, k));
+            }
+        }
+    }
+    let next = AtomicUsize::new(0);
+    let out = std::sync::Mutex::new(vec![]);
+    std::thread::scope(|sc| {
+        for _ in 0..16 {
+            sc.spawn(|| loop {
+                let i = next.fetch_add(1, Ordering::Relaxed);
+                if i >= jobs2.len() {
+                    break;
+                }
+                let o = Command::new(&exe).args(["--child", "c16", "--entry", jobs2[i].0, "--start", &jobs2[i].1.to_string(), "--inject", &jobs2[i].2.to_string()]).output().unwrap();
+                let code = o.status.code().unwrap_or_else(|| -o.status.signal().unwrap_or(0));
+                out.lock().unwrap().push((i, String::from_utf8_lossy(&o.stdout).to_string(), code));
+            });
+        }
+    });
+    let mut res = out.into_inner().unwrap();
+    res.sort();
+    for (i, stdout, code) in res {
+        let (e, s, k) = jobs2[i];
+        let case = format!("[{}] {} with the count at {} and a second clone interleaved before atomic step {}", cfg, e, s, k);
+        let past = stdout.contains("PAST");
+        let sentinel = stdout.lines().find(|l| l.starts_with("SENTINEL"));
+        let aborted = matches!(code, -6 | -4 | -5 | 134);
+        let outcome = if stdout.contains("CAUGHT") {
+            "caught-panic"
+        } else if sentinel.is_some() {
+            "returned"
+        } else if aborted {
+            "aborted"
+        } else {
+            "other"
+        };
+        gi.case(format!("{}|{}|{}|{}|{}|past={}", cfg, e, s == im, k, outcome, past), || format!("{} -> {} (an increment saw the count past the limit: {})", case, outcome, past));
+        match (outcome, past) {
+            ("aborted", true) | ("returned", false) => {}
+            ("returned", true) => gi.fail("overflow-check-not-atomic", &case, format!("an increment found the count already past isize::MAX and the clone still returned a handle: {}", sentinel.unwrap())),
+            ("aborted", false) => gi.fail("abort-below-limit", &case, "the process aborted although no increment ever found the count past isize::MAX".into()),
+            ("caught-panic", _) => gi.fail("overflow-recoverable", &case, "the overflow guard raised a catchable panic".into()),
+            _ => gi.fail("overflow-odd-exit", &case, format!("child ended with {} and output {:?}", code, stdout)),
+        }
+    }
+    vec![g, gi]
 }
